@@ -85,6 +85,12 @@ pub struct Ctx {
     pub excluded: BTreeMap<String, u64>,
     pub extra: BTreeMap<String, J>,
     pub failure: Option<Failure>,
+    /// progress file: "<sub> <k>" of the case about to run (cheap pwrite per case), so that
+    /// a worker killed by a signal can be re-run up to that case and the case reported
+    pub progress: Option<std::fs::File>,
+    /// re-run mode: dump the k-th case of sub-check `sub` to `<out>.inflight` before running it
+    pub trace_at: Option<(String, u64)>,
+    pub out_path: String,
 }
 
 impl Ctx {
@@ -103,6 +109,9 @@ impl Ctx {
             excluded: BTreeMap::new(),
             extra: BTreeMap::new(),
             failure: None,
+            progress: None,
+            trace_at: None,
+            out_path: String::new(),
         }
     }
     /// this worker's share of `total` cases
@@ -260,8 +269,26 @@ where
     let seed = ctx.sub_seed(prop, sub);
     let mut runner = TestRunner::new(proptest_config(cases, seed));
     let failed = RefCell::new(false);
+    let counter = std::cell::Cell::new(0u64);
+    let progress = ctx.progress.as_ref().and_then(|f| f.try_clone().ok());
+    let trace_at = match &ctx.trace_at {
+        Some((s, k)) if s == sub => Some(*k),
+        _ => None,
+    };
+    let inflight_path = format!("{}.inflight", ctx.out_path);
     let cell = RefCell::new(&mut *ctx);
     let res = runner.run(&strat, |case| {
+        let k = counter.get() + 1;
+        counter.set(k);
+        if let Some(f) = &progress {
+            use std::os::unix::fs::FileExt;
+            let line = format!("{sub} {k}                    \n");
+            let _ = f.write_at(line.as_bytes(), 0);
+        }
+        if trace_at == Some(k) {
+            let body = json!({"sub": sub, "k": k, "case": case.to_j()});
+            let _ = std::fs::write(&inflight_path, body.to_string());
+        }
         let mut obs = Obs::default();
         let r = match guard(|| check(&case, &mut obs)) {
             Ok(r) => r,
